@@ -57,6 +57,36 @@ def gen_single_root(rng: random.Random, max_groups: int = 4, multi_cfw: bool = T
     return {"groups": groups, "request": req, "inplace": rng.random() < 0.4}
 
 
+def gen_ladder(rng: random.Random, n_rows: int = 3) -> Dict[str, Any]:
+    """DEEP dependency levels inside ONE feature group: a chain of 4-7 rungs f1(a), f2(f1), ... in group D1 - straight, or
+    zig-zag through a second group D2 computing on the same object (D1.f1 -> D2.g1 -> D1.f2 -> ...), optionally with a second
+    feature per rung - so that the planner's split of one group into dependency levels has more than three levels.
+    Merge-free: everything lives on the root's object (one framework)."""
+    cfw = rng.choice(CFWS)
+    cols = {c: [rng.randrange(-5, 20) for _ in range(n_rows)] for c in ["a", "b"][: rng.randrange(1, 3)]}
+    depth = rng.randrange(4, 8)
+    zig = rng.random() < 0.4
+    d1: Dict[str, Any] = {}
+    d2: Dict[str, Any] = {}
+    prev = rng.choice(list(cols))
+    names: List[str] = []
+    for k in range(1, depth + 1):
+        tgt, nm = (d2, f"g{k}") if (zig and k % 2 == 0) else (d1, f"f{k}")
+        ins = [prev] + ([rng.choice(list(cols))] if rng.random() < 0.3 else [])
+        tgt[nm] = {"inputs": ins, "c0": rng.randrange(-3, 4), "coefs": [rng.choice([1, 1, 2, -1, 3]) for _ in ins]}
+        names.append(nm)
+        if rng.random() < 0.3:                          # a second feature on the same rung
+            tgt[nm + "x"] = {"inputs": [prev], "c0": rng.randrange(-3, 4), "coefs": [rng.choice([1, 2, -1])]}
+            names.append(nm + "x")
+        prev = nm
+    groups: List[Dict[str, Any]] = [{"name": "R0", "kind": "root", "cfw": cfw, "cols": cols},
+                                    {"name": "D1", "kind": "derived", "cfw": cfw, "features": d1}]
+    if d2:
+        groups.append({"name": "D2", "kind": "derived", "cfw": cfw, "features": d2})
+    req = [prev] + rng.sample([n for n in names if n != prev], rng.randrange(0, 3))
+    return {"groups": groups, "request": req, "inplace": rng.random() < 0.4, "family": "ladder"}
+
+
 def gen_two_roots_inner(rng: random.Random) -> Dict[str, Any]:
     """Two root groups joined by an inner link on k, one consumer group over both (+ optional further level)."""
     cf = [rng.choice(CFWS[:2]), rng.choice(CFWS[:2])]
